@@ -329,4 +329,13 @@ class PlantedE2E(Stream):
         return repr((case['ds_seed'], case['grid'], case['qid'])) if w and w['segs'] else None
 
 
-STREAMS = [PlantedAlign(), PlantedDense(), PlantedE2E()]
+# the theorems C06_true_lag_yields_seed* are about the executable seeding model (model/Seeding.v): its correspondence with the real seeding
+# chain (harness/seeding.py, shared with C16) is therefore part of this check as well
+from .. import seeding as _sd
+
+
+class SeedingChain(_sd.SeedingChain):
+    n_quick, n_thorough = 16, 80
+
+
+STREAMS = [PlantedAlign(), PlantedDense(), PlantedE2E(), SeedingChain()]
